@@ -557,3 +557,131 @@ def install_type_hooks(ex):
         ln = sym(name + '.len', BV64)
         return ByteVec(name, ln, [{'kind': 'chunk', 'pos': b64(0), 'len': ln, 'id': name}])
     ex.type_hooks.append((r'^(std::vec::)?Vec<u8>$', mk_vec))
+
+
+# ------------------------------------------------------------------------------------------ time and timers
+NS = 1000000000
+BV128 = z3.BitVecSort(128)
+
+
+def dur(ns):
+    """std::time::Duration as a 128-bit nanosecond count (u64 seconds * 10^9 + nanos fits)"""
+    return Agg({0: Int(ns if not isinstance(ns, int) else z3.BitVecVal(ns, 128), 128, False)}, 'Duration')
+
+
+DUR_MAX = (2 ** 64) * NS - 1
+
+
+class TimerModel(Opaque):
+    """mio_extras::timer::Timer<T>: records set/cancel calls; poll() pops harness-provided expirations"""
+
+    def __init__(self):
+        self.log = []        # ('set', id, duration ns bv128, val) | ('cancel', id)
+        self.expired = []    # values returned by poll(), in order
+        self.nid = 0
+
+
+class Clock(Opaque):
+    """monotonic clock: Instant::now() returns non-decreasing symbolic instants"""
+
+    def __init__(self):
+        self.reads = []
+
+
+def time_summaries():
+    S = []
+
+    def reg(pat):
+        def deco(f):
+            S.append((pat, f))
+            return f
+        return deco
+
+    @reg(r'^(std::time::)?Duration::from_secs$')
+    def from_secs(ex, st, fn, argv):
+        return [(st, dur(z3.ZeroExt(64, argv[0].bv) * z3.BitVecVal(NS, 128)))]
+
+    @reg(r'^(std::time::)?Duration::from_millis$')
+    def from_millis(ex, st, fn, argv):
+        return [(st, dur(z3.ZeroExt(64, argv[0].bv) * z3.BitVecVal(1000000, 128)))]
+
+    def dv(ex, st, v):
+        v = deref(ex, st, v)
+        if isinstance(v, Lazy):
+            raise Unsupported('unmaterialised Duration')
+        return v.fields[0].bv
+
+    @reg(r'^<(std::time::)?Duration as PartialOrd>::(gt|ge|lt|le)$')
+    def d_cmp(ex, st, fn, argv):
+        a, b = dv(ex, st, argv[0]), dv(ex, st, argv[1])
+        op = fn.split('::')[-1]
+        return [(st, Bool({'gt': z3.UGT, 'ge': z3.UGE, 'lt': z3.ULT, 'le': z3.ULE}[op](a, b)))]
+
+    @reg(r'^<(std::time::)?Duration as Add>::add$')
+    def d_add(ex, st, fn, argv):
+        a, b = dv(ex, st, argv[0]), dv(ex, st, argv[1])
+        outs = []
+        for (s, c, ovf) in ex.fork_on(st, z3.UGT(a + b, z3.BitVecVal(DUR_MAX, 128)), None):
+            outs.append((s, Panic('overflow when adding durations') if ovf else dur(a + b)))
+        return outs
+
+    @reg(r'^<(std::time::)?Duration as Sub>::sub$')
+    def d_sub(ex, st, fn, argv):
+        a, b = dv(ex, st, argv[0]), dv(ex, st, argv[1])
+        outs = []
+        for (s, c, neg) in ex.fork_on(st, z3.ULT(a, b), None):
+            outs.append((s, Panic('overflow when subtracting durations') if neg else dur(a - b)))
+        return outs
+
+    @reg(r'^<u32 as Mul<(std::time::)?Duration>>::mul$')
+    def d_mul(ex, st, fn, argv):
+        k, a = argv[0].bv, dv(ex, st, argv[1])
+        r = z3.ZeroExt(96, k) * a
+        outs = []
+        for (s, c, ovf) in ex.fork_on(st, z3.UGT(r, z3.BitVecVal(DUR_MAX, 128)), None):
+            outs.append((s, Panic('overflow when multiplying duration by scalar') if ovf else dur(r)))
+        return outs
+
+    @reg(r'^(std::time::)?Instant::now$')
+    def i_now(ex, st, fn, argv):
+        clk = st.roots['clock']
+        t = st.fresh_bv('now', 128)
+        if clk.reads:
+            st.pc.append(z3.UGE(t, clk.reads[-1]))
+        st.pc.append(z3.ULE(t, z3.BitVecVal(2 ** 80, 128)))
+        clk.reads.append(t)
+        return [(st, Agg({0: Int(t, 128, False)}, 'Instant'))]
+
+    @reg(r'^(std::time::)?Instant::elapsed$')
+    def i_elapsed(ex, st, fn, argv):
+        inst = deref(ex, st, argv[0])
+        clk = st.roots['clock']
+        t = st.fresh_bv('now', 128)
+        if clk.reads:
+            st.pc.append(z3.UGE(t, clk.reads[-1]))
+        st.pc.append(z3.ULE(t, z3.BitVecVal(2 ** 80, 128)))
+        clk.reads.append(t)
+        return [(st, dur(t - inst.fields[0].bv))]
+
+    @reg(r'^Timer::<.*>::set_timeout$')
+    def t_set(ex, st, fn, argv):
+        tm = deref(ex, st, argv[0])
+        tm.nid += 1
+        tm.log.append(('set', tm.nid, dv(ex, st, argv[1]), argv[2]))
+        return [(st, Agg({0: Int(tm.nid, 64, False)}, 'Timeout'))]
+
+    @reg(r'^Timer::<.*>::cancel_timeout$')
+    def t_cancel(ex, st, fn, argv):
+        tm = deref(ex, st, argv[0])
+        to = deref(ex, st, argv[1])
+        tm.log.append(('cancel', to.fields[0].bv))
+        return [(st, mk_option())]
+
+    @reg(r'^Timer::<.*>::poll$')
+    def t_poll(ex, st, fn, argv):
+        tm = deref(ex, st, argv[0])
+        if tm.expired:
+            return [(st, mk_option(tm.expired.pop(0)))]
+        return [(st, mk_option())]
+
+    return S
